@@ -10,8 +10,8 @@ import (
 
 func init() {
 	register(&propDef{
-		ID:  "C11",
-		Run: ruleC11,
+		ID:          "C11",
+		Run:         ruleC11,
 		Explanation: "Decides ordering and who-may-write for the key path (structural necessary conditions of C11): the only file-mutating calls that receive the --encryptionKeyFile path are inside the key writer, every call of the key writer is control dependent on the existence test of the same path being false, the existence test answers false only for not-exist / directory, the written bytes are the fresh CSPRNG key (make([]byte,64) filled by crypto/rand.Read, error tested) and are the bytes installed as the run's key, the reader rejects read/base64/length failures before any success return (constant 64 agrees in all four places), the write mode has no group/other bits, every key error exits non-zero, and no processing call can precede the key block. NOT decided: file-system semantics (umask, Stat on odd file types), randomness quality.",
 		RuleText:    "obligations = mutating calls on the tainted key path, key-writer call sites, returns of the existence test, key generator shape, reader success returns, mode constants, error exits, ordering against processing calls",
 	})
@@ -337,8 +337,8 @@ func ruleC11(c *Ctx, r *Report) {
 // processingCallKeys: calls that start producing output / network traffic.
 func (c *Ctx) processingCallKeys() map[string]bool {
 	m := map[string]bool{
-		c.pkgFn("ProcessMongoLogFile"):                     true,
-		c.pkgFn("ProcessMongoLogFileFromReader"):           true,
+		c.pkgFn("ProcessMongoLogFile"):                    true,
+		c.pkgFn("ProcessMongoLogFileFromReader"):          true,
 		c.pkgMethod("AtlasClient", "DownloadClusterLogs"): true,
 	}
 	a := c.anchors()
